@@ -242,7 +242,13 @@ func execQ(e *lp.Exec, f []string) {
 	if reqSeen != nil {
 		um = lp.Hex([]byte(reqSeen.Method))
 	}
-	e.P("> %s sha=%s origin=%d um=%s", strings.Join(f, " "), lp.Hex(sha1Of(key)), originVerdict, um)
+	// uk: the key as the Upgrader sees it ("Sec-WebSocket-Key: " with an empty value reaches it as " " through nbhttp's
+	// parser and as "" through net/http: header value trimming is the HTTP parsers' business)
+	uk := "none"
+	if reqSeen != nil && len(reqSeen.Header["Sec-Websocket-Key"]) > 0 {
+		uk = "x" + lp.Hex([]byte(reqSeen.Header["Sec-Websocket-Key"][0]))
+	}
+	e.P("> %s sha=%s origin=%d um=%s uk=%s", strings.Join(f, " "), lp.Hex(sha1Of(key)), originVerdict, um, uk)
 	wire := bytes.Join(ep.writes, nil)
 	if !called {
 		e.P("Q noreq perr=%v", perr != nil)
@@ -274,8 +280,12 @@ func execQ(e *lp.Exec, f []string) {
 		must = "connection"
 	case !tokenList(h["Sec-Websocket-Version"], "13"): // a list that contains 13 is tolerated (as every common server does)
 		must = "version"
-	case len(h["Sec-Websocket-Key"]) < 1 || !keyOK(h["Sec-Websocket-Key"][0]): // a repeated header: the first one counts
+	case len(h["Sec-Websocket-Key"]) < 1 || h["Sec-Websocket-Key"][0] == "": // a repeated header: the first one counts
 		must = "key"
+	}
+	if must == "" && !keyOK(h["Sec-Websocket-Key"][0]) {
+		// leniency of the code (not demanded by C12/C13/C15): a non-empty key that is not base64 of 16 bytes; counted only
+		e.Count("hs", fmt.Sprintf("lenient-key-%v", uerr == nil))
 	}
 	if must != "" && uerr == nil {
 		e.Oracle("c12-handshake", "class=must-%s a request violating RFC 6455 4.2.1 (%s) was answered with 101", must, must)
@@ -292,7 +302,7 @@ func execQ(e *lp.Exec, f []string) {
 			}
 		}
 	}
-	if must == "" && plain && uerr != nil && originVerdict != 0 && len(respHeader["Sec-Websocket-Extensions"]) == 0 {
+	if must == "" && plain && keyOK(h["Sec-Websocket-Key"][0]) && uerr != nil && originVerdict != 0 && len(respHeader["Sec-Websocket-Extensions"]) == 0 {
 		e.Oracle("c12-handshake", "class=conforming-refused a conforming request was refused: %v", uerr)
 	}
 	if uerr == nil {
